@@ -204,15 +204,19 @@ CHECKS = {
         technique='Lean 4 proof (decision tables, interval colouring, composition of refinements) + model/implementation correspondence',
         design='§4 C03'),
     'C04': dict(
-        text='Theorems: chunk classifier facts (half-open membership, priority order, raw pass-through), header '
-             'rewrite touches exactly two bytes, no key is set up for a no-crypto image.  The FullDecrypted '
-             'get_data (chunk accumulation, per-region decryption, trimming) is modelled statement by statement and '
-             'tied to the code by differential execution of seek/read histories centred on section and chunk '
-             'boundaries, with the monitor = slice of the independent specification image, the declared size, and '
-             'a key-less re-parse of the image compared section by section.',
-        note=COMMON_NOTE + 'partial: the equality fullRead = slice(image) is established by correspondence and the '
-             'independent monitor, not yet by a Lean theorem; builder is the trusted specification.',
-        technique='Lean 4 model + classifier theorems + model/implementation correspondence with metamorphic re-parse',
+        text='Theorems: the one-image theorem - on a regular NCCH (sections pairwise apart: a decidable predicate evaluated on '
+             'every generated image; get_data of each section returns the slice of that section\'s plaintext, as the C03 section '
+             'theorems give and as is proved outright for containers without encryption) EVERY read of the fully-decrypted view, '
+             'at any offset and length (inside a chunk, straddling sections, over gaps, to the end), is the corresponding slice of '
+             'one image, hence equal to the slice of a whole-image read; proved through a plan theorem (the planned pieces stand '
+             'for exactly the chunks of the aligned request, in order, each once, keys unique, last piece = last chunk) and an '
+             'assembly theorem (first piece loses the leading bytes, last piece the trailing ones); chunk classifier facts, header '
+             'rewrite touches exactly two bytes, no key is set up for a no-crypto image.  Tied to the code by differential '
+             'execution of seek/read histories centred on section and chunk boundaries, with the monitor = slice of the '
+             'independent specification image, the declared size, and a key-less re-parse compared section by section.',
+        note=COMMON_NOTE + 'the slice semantics of get_data for ENCRYPTED sections is a hypothesis of the one-image theorem '
+             '(discharged by the C01/C03 stream theorems on paper, by correspondence in the check); builder is the trusted specification.',
+        technique='Lean 4 proof (plan/assembly theorems, one-image theorem) + model/implementation correspondence with metamorphic re-parse',
         design='§4 C04'),
     'C05': dict(
         text='Theorems: the MSB-first content index round-trips for every set of indices; 64-byte alignment of the '
